@@ -150,7 +150,7 @@ class SequentialCB(Evaluator):
         should_pred = (learn and not lrn_off) or val_on or val_dm or val_dr or (val_ips and not has_score) or out_action or out_prob
 
         if out_rewards and discrete:
-            get_rewards = (lambda Rs,As:[[R(a) for a in A] for R,A in zip(Rs,As)]) if batched else (lambda R,A: [R(a) for a in A])
+            get_rewards = (lambda Rs,As: Batch.List([[R(a) for a in A] for R,A in zip(Rs,As)])) if batched else (lambda R,A: [R(a) for a in A])
         if out_rewards and not discrete:
             get_rewards = lambda R,_: R
 
@@ -240,13 +240,13 @@ class SequentialCB(Evaluator):
             if out_time and learn: out['learn_time'] = learn_time
             if out_context : out['context']      = context
             if out_actions : out['actions']      = actions
-            if out_action  : out['action']       = on_act
+            if out_action  : out['action']       = on_act if not batched else Batch.List(on_act)
             if out_reward  : out['reward']       = eval_reward
             if out_rewards : out['rewards']      = get_rewards(rewards,actions)
             if out_ope_loss: out['ope_loss']     = get_ope_loss(learner)
 
             if out_prob and should_pred and on_pr is not None:
-                out['probability'] = on_pr
+                out['probability'] = on_pr if not batched else Batch.List(on_pr)
 
             out.update({k: interaction[k] for k in interaction.keys()-SequentialCB._IMPLICIT_EXCLUDE})
 
